@@ -720,3 +720,67 @@ func shortNames(ss []string) []string {
 	}
 	return out
 }
+
+// ConsumedOnce: the calls in fn of the given consumers (functions that read a stream to its
+// end) are mutually exclusive: no path runs two of them, so none is handed an exhausted
+// reader.
+func ConsumedOnce(prog *load.Program, fn *ssa.Function, consumers []string) Result {
+	res := Result{Name: fnKey(fn) + "/the-reader-is-consumed-once", Func: fnKey(fn), Pos: prog.Pos(fn.Pos())}
+	type site struct {
+		b    *ssa.BasicBlock
+		idx  int
+		name string
+	}
+	var sites []site
+	for _, b := range fn.Blocks {
+		for i, in := range b.Instrs {
+			c, ok := in.(ssa.CallInstruction)
+			if !ok {
+				continue
+			}
+			n := calleeName(c.Common())
+			for _, cs := range consumers {
+				if strings.HasSuffix(n, cs) {
+					sites = append(sites, site{b, i, cs})
+				}
+			}
+		}
+	}
+	if len(sites) == 0 {
+		res.Detail = "no consumer call"
+		return res
+	}
+	reach := func(from, to *ssa.BasicBlock) bool {
+		seen := map[*ssa.BasicBlock]bool{}
+		var walk func(b *ssa.BasicBlock) bool
+		walk = func(b *ssa.BasicBlock) bool {
+			for _, s := range b.Succs {
+				if s == to {
+					return true
+				}
+				if !seen[s] {
+					seen[s] = true
+					if walk(s) {
+						return true
+					}
+				}
+			}
+			return false
+		}
+		return walk(from)
+	}
+	for i, a := range sites {
+		for j, b := range sites {
+			if i == j {
+				continue
+			}
+			if (a.b == b.b && a.idx < b.idx) || (a.b != b.b && reach(a.b, b.b)) || (a.b == b.b && reach(a.b, a.b)) {
+				res.Detail = b.name + " can run after " + a.name + " on one path (the second one reads an exhausted reader)"
+				return res
+			}
+		}
+	}
+	res.OK = true
+	res.Detail = fmt.Sprintf("%d consumer call(s), pairwise on different paths", len(sites))
+	return res
+}
